@@ -15,18 +15,12 @@ import (
 	"go.lstv.dev/util/sem"
 	"go.lstv.dev/util/size"
 	"go.lstv.dev/util/uu"
+	"verif/libdefaults"
 	"verif/mc"
 )
 
 func reset() {
-	date.MaxInputLength, date.Formatter, date.Parser = 10, date.DefaultFormatter, date.DefaultParser[[]byte]
-	roman.MaxInputLength, roman.DefaultFormat, roman.Formatter, roman.Parser = 128, 0, roman.DefaultFormatter, roman.DefaultParser[[]byte]
-	sem.MaxInputLength, sem.Formatter, sem.Parser = 1024, sem.DefaultFormatter, sem.DefaultParser[[]byte]
-	sem.ComparePreRelease = sem.DefaultComparePreRelease[string, string]
-	size.MaxInputLength, size.MaxObjectKeys, size.Formatter, size.Parser = 128, 16, size.DefaultFormatter, size.DefaultParser[[]byte]
-	size.DefaultRule = size.RuleEnableJSONStringForm | size.RuleEnableJSONObjectForm
-	size.DisableMarshalTextUnit, size.DisableMarshalJSONStringForm, size.DisableMarshalJSONObjectForm = false, false, false
-	uu.MaxInputLength, uu.Formatter, uu.Parser = 45, uu.DefaultFormatter, uu.DefaultParser[[]byte]
+	libdefaults.All()
 }
 
 func globals() string {
